@@ -193,6 +193,7 @@ func runC07(tier string, seed int64, outdir string, replay string) error {
 	w := emit.NewWriter(outdir, "C07", tier, seed)
 	defer w.Close()
 	w.Meta.Rule = "a case counts as non-trivial when the injected fault or crash point lies inside the operation (its index is below the number of Storage calls the faulted run made); distinct = distinct (variant, plan)"
+	w.Meta.Oracles = append(w.Meta.Oracles, pemCodecOracle([]string{"p256"}))
 	recOrc := orc(up(100, 0), up(100, 0))
 	if replay != "" {
 		rc, err := loadReplay(replay)
